@@ -21,6 +21,14 @@ explicit pending pool):
              children, clock positions around both thresholds, delays incl. 0 and negative, batch sizes
              smaller than the number of RUNNING tasks; recorded schedule_on_action_complete calls +
              re-scheduling vs `integrity_pass`
+  chain      the periodic chain of integrity checks: real workflows whose due check (run as the real scheduler job) lands
+             on a population WITHOUT a RUNNING task (only DELAYED by wait-before / retry delay, WAITING join, IDLE with
+             the start message in flight, PAUSED workflow with finished or running tasks, finished workflow before a
+             rerun) as well as with one; per check the decision + re-arm flag vs `integrity_pass`, and the whole run
+             (start, workflow state changes, task rows, ticks, fired checks, rerun) vs `crun`: pending check due
+             times and the fired checks.  The statements in front of the re-arm call are extracted from
+             workflow_handler.py into Gen/IntegrityShape.v by translate/tr_integrityshape.py (fail closed on any
+             early return / statement other than negative delay, workflow missing, workflow completed).
 Oracle (no model involved), on the same real runs:
   expiry:missed / expiry:spurious:<why>   after a pass: exactly the RUNNING + sync + parent-present actions
         whose harness-tracked last heartbeat (creation + first_heartbeat_timeout, or the last beat) is
@@ -33,6 +41,11 @@ Oracle (no model involved), on the same real runs:
         which the same actions simply returned the same kind of result (expiry == ordinary error)
   beat:lost / beat:spurious   a heartbeat must stamp exactly the listed existing actions
   integrity:not-recovered / :premature / :disabled-but-ran / :never-finishes
+  integrity:chain-ended   an unfinished workflow (non-negative delay) without any pending integrity check - after start,
+        after every check, after rerun_workflow
+  integrity:not-recovered (chain runs)  a task is made stuck AFTER checks that found nothing to do (its executions set
+        finished in the DB / the with-items completion job lost); the clock advances, every due check runs; by
+        stuck + delay + max(120, delay) the task and the workflow must have finished
   service:* / sender:*  first pass after interval*max_missed, loop survives an exception, disabled = no pass,
         a running action is reported immediately and on every beat until removed
 
@@ -69,6 +82,11 @@ every one gives VIOLATION lines with a replayable failing input; first signature
   M19 db api: heartbeat update only for RUNNING rows                              [beat:lost]
   M20 db api: `query = query.limit(limit)` (the limit really applied)             [expiry:missed, corpus:taskless-first-in-batch: task-less
       rows then occupy the batch for ever]
+  M21 integrity: re-arm moved below the query and skipped when no task is RUNNING  [translate:Gen/IntegrityShape.v, integrity:chain-ended,
+      integrity:not-recovered]   (the seeded regression the first version missed: no population without a RUNNING task)
+  M22 integrity: `is_completed(wf_ex.state)` guard -> `is_paused_or_completed`     [translate:..., integrity:chain-ended (paused population)]
+  M23 integrity: period 120 -> 1200                                               [integrity:not-rescheduled, integrity:not-recovered]
+  M24 rerun_workflow / _recursive_rerun no longer schedule a check                [integrity:chain-ended (rerun population)]
 M2 was missed by the first version (all runs had auth_enable=False, where project scoping is off): half of the op-sequence
 runs now switch [pecan] auth_enable on and pending messages carry their sender's context.  M18 was caught by a single
 scenario only: check times are now drawn from the first instant at which recovery is due (-1/0/+1).
@@ -81,7 +99,7 @@ import types
 
 from harness import core
 
-GEN = ['States']
+GEN = ['States', 'IntegrityShape']
 
 MANIFEST = {
     'level_text': 'Coq theorems over Model/Beat.v: expiry selection exact (all row tables, clocks, settings); one pass '
@@ -91,13 +109,17 @@ MANIFEST = {
                   'heartbeat under an enabled checker, a silent action is untouched up to h+max_missed*interval and '
                   'failed by the first pass after it (first-heartbeat grace as corollary), a beat protects for '
                   'max_missed*interval; disabled settings never expire; integrity decision exact, recovers inside the '
-                  'batch window, never premature, disabled when delay<0, found by all periodic checks from some point. '
+                  'batch window, never premature, disabled when delay<0, found by all periodic checks from some point; the chain '
+                  'of checks as a transition system (tick / check fired / any task-row change / pause-resume-finish / rerun, '
+                  'arbitrary event sequences): while the workflow is unfinished a check is pending and due within one '
+                  'period (re-arm guards extracted from the source, fail closed), a due check is never skipped, and a '
+                  'stuck task inside the window is re-triggered before max(now, T0+delay)+max(period, delay). '
                   'Model tied to the real checker/engine/db functions by differential runs (select, ops, service, '
                   'integrity) on the real engine under a virtual clock.',
     'level_note': 'Component level: the task/workflow error path after an expiry is checked by a twin run of the real engine '
                   '(oracle), not proved here (engine model is separate). Trusted: SQLAlchemy/sqlite query semantics, '
                   'one checker pass = one transaction (tx_lock), whole-second virtual clock, threads of start()/_loop '
-                  'replaced by explicit calls. Task-less actions are skipped by the code (never expired); integrity '
+                  'replaced by explicit calls; scheduler runs a job when due (clock never passes a pending job: C13). Task-less actions are skipped by the code (never expired); integrity '
                   'check limited to the first batch_size RUNNING tasks; heartbeat batch_size not applied by the code.',
     'technique': 'Coq invariant/induction proofs over an operation-sequence model; differential correspondence on the real engine',
     'design_ref': '6 C20',
@@ -1315,8 +1337,8 @@ class IntegrityRun:
             if calls or resched or reduced_view(d) != before_view:
                 self.fail('integrity:disabled-but-ran', 'negative delay but the check acted (calls=%d, rescheduled=%s)' % (len(calls), resched))
             return
-        if wf_state == 'RUNNING' and not resched:
-            self.fail('integrity:not-rescheduled', 'workflow still running but no next integrity check scheduled at %d' % (now + 120))
+        if wf_state is not None and wf_state not in COMPLETED and not resched:
+            self.fail('integrity:not-rescheduled', 'workflow still %s but no next integrity check scheduled at %d' % (wf_state, now + 120))
         by_name = {t['name']: t for t in tasks}
         self.settle()     # completion handling re-triggered by the check (jobs of with-items tasks, post-tx work)
         after = self.task_rows()
@@ -1405,6 +1427,349 @@ def compare_integrity(ctx, items, res):
     if items:
         c = items[0][1][0]
         ctx.sample({'suite': 'integrity', 'case': {k: c[k] for k in ('now', 'delay', 'batch', 'wf_state')}, 'real': items[0][1][1]})
+
+
+# ---------------------------------------------------------------------------
+# suite: chain (the periodic chain of integrity checks never ends before the workflow does)
+
+CHAIN_KINDS = ['delayed', 'delayed', 'retry_delayed', 'join_waiting', 'idle', 'paused', 'paused_running', 'running', 'rerun']
+
+
+def gen_chain_wf(rng, kind):
+    W = rng.choice([30, 50, 150, 300])
+    target = rng.choice(['plain', 'plain', 'items', 'async'])
+    L = ["version: '2.0'", 'wf:', '  tasks:']
+
+    def target_task(name):
+        out = ['    %s:' % name]
+        if target == 'items':
+            out += ['      with-items: i in [0, 1]', '      action: verif.act tag="%s" item=<%% $.i %%>' % name]
+        else:
+            out += ['      action: verif.act tag="%s" sync=%s' % (name, 'false' if target == 'async' else 'true')]
+        return out
+    if kind == 'delayed':
+        L += ['    t1:', '      action: verif.act tag="t1"', '      wait-before: %d' % W, '      on-success: t2'] + target_task('t2')
+    elif kind == 'retry_delayed':
+        L += ['    t1:', '      action: verif.act tag="t1"', '      retry:', '        count: 2', '        delay: %d' % W,
+              '      on-success: t2'] + target_task('t2')
+    elif kind == 'join_waiting':
+        L += ['    t1:', '      action: verif.act tag="t1"', '      on-success: t2',
+              '    t0:', '      action: verif.act tag="t0"', '      wait-before: %d' % W, '      on-success: t2']
+        tt = target_task('t2')
+        L += [tt[0], '      join: all'] + tt[1:]
+    else:
+        L += ['    t1:', '      action: verif.act tag="t1"', '      on-success: t2'] + target_task('t2')
+    return {'yaml': '\n'.join(L) + '\n', 'W': W, 'target': target, 'kind': kind}
+
+
+class ChainRun(IntegrityRun):
+    """A workflow whose periodic check lands on a population without (or with) RUNNING tasks; afterwards a task
+    gets stuck; the clock advances with every due check being run; the task and the workflow must finish."""
+
+    def __init__(self, ctx, key, report=True):
+        self.ctx, self.key, self.report = ctx, key, report
+        self.rng = rng = random.Random(key)
+        self.m = mods()
+        self.sched = rng.choice(['legacy', 'legacy', 'default'])
+        self.d = new_driver(self.sched, ctx.seed)
+        self.delay = rng.choice([0, 1, 5, 20, 20, 200, -1])
+        self.batch = rng.choice([1, 5, 5])
+        self.kind = rng.choice(CHAIN_KINDS)
+        self.wf = gen_chain_wf(rng, self.kind)
+        self.trace, self.failed, self.checks, self.stats = [], False, [], {}
+        self.tidx = {}           # task id -> stable model id
+        self.events = []         # model events (Coq text)
+        self.mclock = 0          # clock of the model chain
+        self.mjobs = None        # due times of the model's pending jobs, in the model's list order
+        self.fired = []          # real: (at, [task idx...])
+        self.hold = False        # keep engine messages in flight (population of IDLE tasks)
+
+    def fail(self, sig, what, extra=None, fatal=True):
+        self.failed = self.failed or fatal
+        if self.report:
+            self.ctx.fail(sig, what, {'suite': 'chain', 'key': self.key, 'delay': self.delay, 'batch': self.batch, 'kind': self.kind,
+                                      'workflow': self.wf['yaml'], 'scheduler': self.sched, 'trace': self.trace, 'detail': extra})
+
+    # -- helpers -----------------------------------------------------------
+    def settle(self, integrity=False):
+        if not self.hold:
+            IntegrityRun.settle(self, integrity)
+
+    def wf_state(self):
+        m = self.m
+        m.auth_context.set_ctx(self.d._ctx())
+        with m.db_api.transaction():
+            wf = m.db_api.load_workflow_execution(self.wf_id)
+            return wf.state if wf else None
+
+    def pending_checks(self):
+        return sorted(j['due'] for j in self.integrity_jobs() if not j['captured'])
+
+    def alive_oracle(self, where):
+        """the property's own statement of the chain: an unfinished workflow always has a check pending"""
+        st = self.wf_state()
+        if self.delay >= 0 and st is not None and st not in COMPLETED and not self.pending_checks():
+            if not self.stats.get('chain_ended'):
+                self.fail('integrity:chain-ended', 'workflow is %s at %d (%s) but no integrity check is scheduled any more: a task '
+                          'that gets stuck from now on is never repaired' % (st, self.d.clock, where), fatal=False)
+            self.stats['chain_ended'] = 1
+            return False
+        return True
+
+    def coq_tasks(self, tasks):
+        for t in tasks:
+            self.tidx.setdefault(t['id'], len(self.tidx))
+        return core.coq_list(['(mkT %s %s %s %s %s)' % (
+            NAT(self.tidx[t['id']]), STATE_COQ.get(t['state'], 'Invalid'), Z(t['created']), coq_optZ(t['updated']),
+            core.coq_list(['(mkC %s %s %s)' % (STATE_COQ.get(s, 'Invalid'), Z(c), coq_optZ(u)) for (s, c, u) in t['children']]))
+            for t in tasks])
+
+    def fire_check(self):
+        """run the earliest pending integrity job now (it is due) through the real scheduler path"""
+        d, m = self.d, self.m
+        jobs = sorted([j for j in self.integrity_jobs() if not j['captured']], key=lambda j: j['due'])
+        job = jobs[0]
+        now = d.clock
+        wf_state, tasks, running_order = self.model_input()
+        calls = []
+        orig = m.th.schedule_on_action_complete
+
+        def wrapper(action_ex, *a, **kw):
+            calls.append(action_ex.task_execution_id)
+            return orig(action_ex, *a, **kw)
+        n_err = len(d.entry_errors)
+        with Patched() as p:
+            p.set(m.th, 'schedule_on_action_complete', wrapper)
+            d.fire(('job', job['id']))
+        tcoq = self.coq_tasks(tasks)
+        ids = [self.tidx[t] for t in calls]
+        after = self.pending_checks()
+        self.fired.append((now, ids))
+        self.stats['checks'] = self.stats.get('checks', 0) + 1
+        if not any(t['state'] == 'RUNNING' for t in tasks) and wf_state not in COMPLETED:
+            self.stats['checks_without_running_task'] = self.stats.get('checks_without_running_task', 0) + 1
+            pop = ','.join(sorted(set(t['state'] for t in tasks))) or 'no-task'
+            self.stats['pop:' + wf_state + ':' + pop] = self.stats.get('pop:' + wf_state + ':' + pop, 0) + 1
+        self.trace.append('check at %d: wf %s tasks %r -> retriggered %r, pending checks afterwards %r' % (
+            now, wf_state, [(t['name'], t['state']) for t in tasks], ids, after))
+        # model events: workflow state, task rows, clock, fire
+        if self.mjobs is None:
+            self.mjobs = [] if self.delay < 0 else [10]
+        wf_coq = 'None' if wf_state is None else '(Some %s)' % STATE_COQ.get(wf_state, 'Invalid')
+        k = self.mjobs.index(job['due']) if job['due'] in self.mjobs else 0
+        self.events += ['CWf %s' % wf_coq, 'CTasks %s' % tcoq, 'CTick %d%%N' % (now - self.mclock), 'CFire %s' % NAT(k)]
+        self.mclock = now
+        # per-check correspondence (decision + re-arm flag)
+        expr = 'integrity_view %s %s %s %s %s' % (Z(self.delay), NAT(self.batch), Z(now), wf_coq, tcoq)
+        case = {'key': self.key, 'now': now, 'delay': self.delay, 'batch': self.batch, 'wf_state': wf_state, 'tasks': tasks,
+                'trace': self.trace[-12:]}
+        added = list(after)
+        for j in jobs[1:]:
+            if j['due'] in added:
+                added.remove(j['due'])
+        rearmed = bool(added)
+        self.checks.append((expr, [1 if rearmed else 0] + ids, case))
+        if self.mjobs:
+            self.mjobs.pop(k)
+        if rearmed:
+            self.mjobs.append(added[0])
+        if len(d.entry_errors) > n_err:
+            self.fail('integrity:exception', 'the integrity check raised: %s' % d.entry_errors[-1]['msg'])
+        self.settle()
+        self.alive_oracle('after the check at %d' % now)
+
+    def advance(self, to):
+        """move the clock to `to`; every integrity check that becomes due on the way runs when it is due"""
+        d = self.d
+        for _ in range(50):
+            due = [x for x in self.pending_checks() if x <= to]
+            if not due or self.failed:
+                break
+            d.clock = max(d.clock, int(due[0]))
+            self.settle()
+            if [x for x in self.pending_checks() if x <= d.clock]:
+                self.fire_check()
+        d.clock = max(d.clock, to)
+        self.settle()
+
+    def running_actions(self, task_name):
+        rows = self.task_rows()
+        t = rows.get(task_name)
+        return [c for c in (t['children'] if t else []) if c[2] == 'RUNNING' and not c[1]]
+
+    def deliver(self, task_name, ok=True):
+        m = self.m
+        for (cid, is_wf, st) in self.running_actions(task_name):
+            self.d.operator('action_complete', cid, m.ml_actions.Result(data=1) if ok else m.ml_actions.Result(error='e'))
+        self.settle()
+
+    # -- the run -------------------------------------------------------------
+    def run(self):
+        d, rng, m = self.d, self.rng, self.m
+        kind, W = self.kind, self.wf['W']
+        apply_integrity_cfg(self.delay, self.batch)
+        apply_cfg({'interval': 20, 'max_missed': 15, 'first_timeout': 100000, 'batch': 10})
+        d.create_workflows(self.wf['yaml'])
+        d.clock = 0
+        out, self.wf_id = d.start_workflow('wf', {})
+        if self.delay < 0:
+            if self.integrity_jobs():
+                self.fail('integrity:disabled-but-ran', 'negative delay but an integrity check was scheduled at start')
+            return
+        self.alive_oracle('right after start')
+        # reach the population
+        self.hold = (kind == 'idle')
+        self.settle()
+        if kind == 'retry_delayed':
+            self.deliver('t1', ok=False)
+        elif kind == 'join_waiting':
+            self.deliver('t1')
+        elif kind in ('paused', 'paused_running'):
+            d.operator('pause', self.wf_id)
+            self.settle()
+            if kind == 'paused':
+                self.deliver('t1')
+        elif kind == 'rerun':
+            # the workflow fails (its chain may legitimately end), then the operator reruns the failed task
+            self.deliver('t1', ok=False)
+            if rng.random() < 0.5 and self.pending_checks():
+                self.advance(int(self.pending_checks()[0]))
+            else:
+                self.advance(rng.choice([0, 3, 9]))
+            st0 = self.wf_state()
+            d.operator('rerun', self.task_rows()['t1']['id'])
+            self.settle()
+            st1 = self.wf_state()
+            self.trace.append('workflow %s at %d, rerun of t1 -> %s, pending checks %r' % (st0, d.clock, st1, self.pending_checks()))
+            if self.mjobs is None:
+                self.mjobs = [10]
+            self.events += ['CWf (Some %s)' % STATE_COQ.get(st0, 'Invalid'), 'CTick %d%%N' % (d.clock - self.mclock),
+                            'CRerun %s' % STATE_COQ.get(st1, 'Invalid')]
+            self.mclock = d.clock
+            self.mjobs += [d.clock, d.clock + self.delay]
+            self.alive_oracle('after rerun_workflow')
+        self.trace.append('population %s reached at %d: wf %s %r' % (kind, d.clock, self.wf_state(),
+                                                                     {n: t['state'] for n, t in self.task_rows().items()}))
+        # one or two periodic checks land on it
+        n_checks = rng.choice([1, 1, 2])
+        for _ in range(n_checks):
+            nxt = self.pending_checks()
+            if not nxt or self.failed:
+                break
+            self.advance_idle_to(int(nxt[0]))
+        if self.failed:
+            return
+        # the workflow moves on until the target task runs
+        self.hold = False
+        self.settle()
+        if kind in ('paused', 'paused_running'):
+            d.operator('resume', self.wf_id)
+            self.settle()
+        for _ in range(6):
+            rows = self.task_rows()
+            if 't2' in rows and rows['t2']['state'] == 'RUNNING' and rows['t2']['children']:
+                break
+            for name in ('t0', 't1'):
+                if name in rows and rows[name]['state'] == 'RUNNING':
+                    self.deliver(name)
+            rows = self.task_rows()
+            if any(t['state'] == 'DELAYED' for t in rows.values()):
+                nd = [j['due'] for j in d.jobs() if j['func'] != '_check_and_fix_integrity' and not j['captured']]
+                if nd:
+                    self.advance(int(max(d.clock, min(nd))))
+            if self.failed:
+                return
+        rows = self.task_rows()
+        if not ('t2' in rows and rows['t2']['state'] == 'RUNNING' and rows['t2']['children']):
+            self.stats['target_not_reached'] = 1
+            return
+        # the target task gets stuck: its executions finish, the task never hears about it
+        self.advance(d.clock + rng.choice([0, 1, 7, 40]))
+        if self.failed:
+            return
+        rows = self.task_rows()
+        m.auth_context.set_ctx(d._ctx())
+        for (cid, is_wf, st) in rows['t2']['children']:
+            if self.wf['target'] == 'items' and rng.random() < 0.5:
+                d.operator('action_complete', cid, m.ml_actions.Result(data=1))
+                for j in d.jobs():
+                    if j['func'] == '_scheduled_on_action_complete':
+                        with m.db_api.transaction():
+                            (m.db_api.delete_delayed_call if self.sched == 'legacy' else m.db_api.delete_scheduled_job)(j['id'])
+                for pid in [pid for pid, it in d.pending.items() if it['kind'] == 'ptq']:
+                    d.fire(('item', pid))
+            else:
+                with m.db_api.transaction():
+                    m.db_api.update_action_execution(cid, {'state': 'SUCCESS', 'output': {'result': 1}, 'accepted': True})
+        stuck_at = d.clock
+        self.stats['stuck'] = 1
+        self.trace.append('task t2 stuck at %d (its executions are finished, the completion never reaches the task)' % stuck_at)
+        # the clock advances; every due check runs; by stuck_at + delay + max(period, delay) the task must be repaired
+        horizon = stuck_at + self.delay + max(120, self.delay) + 2
+        self.advance(horizon)
+        if self.failed:
+            return
+        rows = self.task_rows()
+        st = self.wf_state()
+        if rows['t2']['state'] == 'RUNNING' or st not in COMPLETED:
+            self.fail('integrity:not-recovered', 'task t2 got stuck at %d (all executions finished); at %d (delay %d) it is %s and the '
+                      'workflow %s; integrity checks ran at %r' % (stuck_at, d.clock, self.delay, rows['t2']['state'], st,
+                                                                  [a for a, _ in self.fired]))
+
+    def advance_idle_to(self, to):
+        """advance to a due check without letting the population move on (delayed tasks stay delayed if their time has not come)"""
+        self.advance(to)
+
+    def chain_expr(self):
+        return 'chain_view (crun %s %s %s (chain_start %s RUNNING %s))' % (
+            Z(self.delay), NAT(self.batch), core.coq_list(self.events), Z(self.delay), Z(0))
+
+    def chain_real(self):
+        flat = []
+        for at, ids in self.fired:
+            flat += [at, len(ids)] + ids
+        return [int(x) for x in self.pending_checks()], flat
+
+
+def local_chain(ctx, keys, oracle_only=False):
+    items = []
+    stats = {}
+    for key in keys:
+        run = ChainRun(ctx, key)
+        run.run()
+        stats['kind:' + run.kind] = stats.get('kind:' + run.kind, 0) + 1
+        for k, v in run.stats.items():
+            stats[k] = stats.get(k, 0) + v
+        ctx.count('chain', key)
+        ctx.cov['traces_validated_against_impl'] += 1
+        if not oracle_only and run.delay >= 0:
+            for expr, real, case in run.checks:
+                items.append((expr, ('check', case, real)))
+            if run.events:
+                jobs, flat = run.chain_real()
+                items.append((run.chain_expr(), ('chain', {'key': key, 'delay': run.delay, 'batch': run.batch, 'kind': run.kind,
+                                                           'workflow': run.wf['yaml'], 'events': run.events, 'trace': run.trace},
+                                                 [jobs, flat])))
+    ctx.cov['suites'].setdefault('chain', {})['stats'] = stats
+    reset_cfg()
+    return items
+
+
+def compare_chain(ctx, items, res):
+    for (expr, (what, case, real)), r in zip(items, res):
+        ctx.cov['disagreements_checked'] += 1
+        if what == 'check':
+            if ints(r) != real:
+                ctx.disagree('chain', case, r, real)
+        else:
+            tl = two_lists(r)
+            if tl is None or sorted(tl[0]) != sorted(real[0]) or tl[1] != real[1]:
+                ctx.disagree('chain', case, r, real)
+    chains = [it for it in items if it[1][0] == 'chain']
+    if chains:
+        c = chains[0][1]
+        ctx.sample({'suite': 'chain', 'key': c[1]['key'], 'kind': c[1]['kind'], 'delay': c[1]['delay'], 'real': c[2]})
+
 
 
 # ---------------------------------------------------------------------------
@@ -1501,9 +1866,10 @@ CORPUS = [
 # ---------------------------------------------------------------------------
 
 LOCAL = {'corpus': local_corpus, 'select': local_select, 'service': local_service, 'sender': local_sender,
-         'ops': local_ops, 'integrity': local_integrity}
+         'ops': local_ops, 'integrity': local_integrity, 'chain': local_chain}
 COMPARE = {'corpus': lambda ctx, items, res: compare_ops(ctx, items, res, suite='corpus'), 'select': compare_select,
-           'service': compare_service, 'sender': lambda ctx, items, res: None, 'ops': compare_ops, 'integrity': compare_integrity}
+           'service': compare_service, 'sender': lambda ctx, items, res: None, 'ops': compare_ops, 'integrity': compare_integrity,
+           'chain': compare_chain}
 
 
 def _worker(job):
@@ -1579,6 +1945,8 @@ def correspondence_and_oracle(ctx):
     jobs = [('corpus', {}), ('service', {}), ('sender', {})]
     jobs += [('ops', {'keys': c}) for c in chunks(['%s/ops/%d' % (ctx.seed, i) for i in range(n_ops)], 2 * k)]
     jobs += [('integrity', {'keys': c}) for c in chunks(['%s/integrity/%d' % (ctx.seed, i) for i in range(n_int)], 2 * k)]
+    n_chain = ctx.n(64, 640)
+    jobs += [('chain', {'keys': c}) for c in chunks(['%s/chain/%d' % (ctx.seed, i) for i in range(n_chain)], k)]
     jobs += [('select', {'sets': c}) for c in chunks(range(n_sel), k)]
     import time
     t0 = time.time()
@@ -1614,6 +1982,7 @@ def search(ctx):
     jobs = [('select', {'sets': c, 'oracle_only': True}) for c in chunks(range(4000, 4600), k)]
     jobs += [('ops', {'keys': c, 'oracle_only': True}) for c in chunks(['%s/search-ops/%d' % (ctx.seed, i) for i in range(400)], 2 * k)]
     jobs += [('integrity', {'keys': c, 'oracle_only': True}) for c in chunks(['%s/search-int/%d' % (ctx.seed, i) for i in range(400)], 2 * k)]
+    jobs += [('chain', {'keys': c, 'oracle_only': True}) for c in chunks(['%s/search-chain/%d' % (ctx.seed, i) for i in range(200)], k)]
     run_jobs(ctx, jobs)
 
 
@@ -1627,6 +1996,8 @@ def replay(obj):
         jobs = [('ops', {'keys': [r['key']], 'oracle_only': True})]
     elif suite == 'integrity' and 'key' in r:
         jobs = [('integrity', {'keys': [r['key']], 'oracle_only': True})]
+    elif suite == 'chain' and 'key' in r:
+        jobs = [('chain', {'keys': [r['key']], 'oracle_only': True})]
     elif suite == 'select':
         jobs = [('select', {'sets': [r.get('set', 0)], 'oracle_only': True})]
     elif suite == 'corpus':
